@@ -45,7 +45,7 @@ package z80
 // or later": the Step after which a stop condition holds is the last one.
 //@ func (cpu *CPU) Run(ctx context.Context) (err error)
 //@   layer P
-//@   props C08 C13
+//@   props C08 C13 C18
 //@   requires vsGhostMem(cpu.Memory)
 //@   requires !g.Stepped
 //@   ensures [at-least-one-step] g.Stepped || (err != nil && err != ErrBreakPoint)
